@@ -7,6 +7,8 @@ State record: fifol of coq/FifoLit.v.  What differs from the lru family, and the
     *it            (list iterator)  -> l_deref list it          : element& = the node identity (kind eref)
     e.m_x          (element&)        -> vget "list node" fl_cells e, then the field (base rule, label from the schema)
     list.size()                      -> List.length
+    list.back()                      -> l_back list              : element& = the identity of the last node (kind eref)
+    it->m_x        (list iterator)  -> (*it).m_x
   unordered_map<key, fifo_iterator>   the record keeps the node n of the mapped iterator It n
     it->second                       -> mit_second index it, read as the list iterator (It n)
     map.emplace(key, list iterator)  -> iter_node (End is not representable: UB, conservative), then umap_emplace
@@ -14,6 +16,15 @@ State record: fifol of coq/FifoLit.v.  What differs from the lru family, and the
     o.has_value()                    -> opt_has_value o
     o.value()                        -> opt_value o  (bad_optional_access reported as UB), the iterator is (Some k)
     o = std::nullopt                 -> field := None
+    bool(o)  (contextual / explicit operator bool)  -> opt_has_value o   ([optional.observe]: same as has_value())
+    *o                               -> opt_value o  (undefined on a disengaged optional: UB), the iterator is (Some k)
+    o.reset()                        -> field := None   ([optional.mod]: same effects as o = std::nullopt)
+  std::optional<value_type> as a value
+    std::optional<value_type>{x}     -> the converting construction from x (Some x; a copy for an optional x)
+    std::optional<value_type>{}      -> None
+    std::nullopt converted to std::optional<value_type>  -> None
+  if (init; cond) A else B           -> { init; if (cond) A else B }   ([stmt.if]; a condition that is a declaration
+                                        `T x = e` is the init-statement `T x = e;` with the condition `x`)
     o = <index iterator>             -> mit_engage it (end() not representable: UB, conservative), field := that
   iterator-pair overloads  f(iterator begin, iterator end, ...)
     the pair (begin, end) of input iterators is ONE list parameter (named after begin); the overload is named f/iter
@@ -25,6 +36,7 @@ State record: fifol of coq/FifoLit.v.  What differs from the lru family, and the
         return / break, not nested in another loop.  Anything else: Unsupported.
     auto& [a, b] = *begin            -> let '(a, b) := item; for a range that is filled (find_range_fill) the
         names alias the item, and the (possibly assigned) pair is what the iteration leaves in the range
+    std::for_each(begin, end, f), f a local lambda  -> that loop, with the body of f as body and its parameter bound to *begin
     f(std::begin(r), std::end(r));  as a statement, r the range parameter to fill, f a void member filling its range
         -> the call; r then holds what the translation of f returns (same as `return f(...);` in a void function)
 """
@@ -205,8 +217,35 @@ class Ext(cpp2coq.Tr):
             if c["n"] == "size":
                 return b, "(List.length %s)" % t, "nat"
             return b, t, kd + ":" + c["n"]
+        if k == "conv" and c["a"][0]["k"] == "ref" and c["a"][0]["n"] == "nullopt" and "nullopt_t" in c["a"][0]["t"] \
+                and c["t"].replace("const ", "").startswith("std::optional<ValT>"):
+            return [], "None", "optval"           # std::nullopt as a std::optional<value_type>
+        if k == "?CXXTemporaryObjectExpr" and c["t"].replace("const ", "").startswith("std::optional<ValT>") and len(c["a"]) <= 1:
+            # std::optional<value_type>{x}: the converting construction from x;  std::optional<value_type>{}: disengaged
+            if not c["a"]:
+                return [], "None", "optval"
+            return self.E(dict(k="conv", t=c["t"], n=None, a=c["a"]), st, env)
+        if k == "op" and c["n"] == "operator->" and len(c["a"]) == 1:
+            st1 = [st[0]]
+            b, t, kd = self.E(c["a"][0], st1, env)
+            if kd == "liter":
+                # it->m on std::list<element> is (*it).m
+                st[0] = st1[0]
+                x = self.fresh("d")
+                return b + ["do %s <- l_deref %s %s;" % (x, self.fld("list", st[0]), t)], x, "eref"
+            return None
+        if k == "mcall" and c["n"] == "back" and len(c["a"]) == 1 and c["a"][0]["k"] == "field" \
+                and self.f_by_cpp[c["a"][0]["n"]][1] == "list":
+            # list.back() on std::list<element>: the element of the last node
+            b, t, kd = self.E(c["a"][0], st, env)
+            x = self.fresh("bk")
+            return b + ["do %s <- l_back %s;" % (x, t)], x, "eref"
         if k == "op" and c["n"] == "operator*" and len(c["a"]) == 1:
             b, t, kd = self.E(c["a"][0], st, env)
+            if kd == "optmit":
+                # *o on std::optional<keyed_iterator>: undefined when disengaged
+                x = self.fresh("k")
+                return b + ["do %s <- opt_value %s;" % (x, t)], "(Some %s)" % x, "mit"
             if kd == "liter":
                 # *it on std::list<element>: the element of that node
                 x = self.fresh("d")
@@ -232,11 +271,11 @@ class Ext(cpp2coq.Tr):
                     "(%s %s)" % (self.ef_by_cpp[c["n"]][0], x), "optmit")
         if k == "mcall" and c["a"] and c["a"][0]["k"] != "this":
             m, args = c["n"], c["a"][1:]
-            if m in ("has_value", "value") and not args:
+            if m in ("has_value", "value", "operator bool") and not args:
                 b, t, kd = self.E(c["a"][0], st, env)
                 if kd != "optmit":
                     raise Unsupported("%s() on %s" % (m, kd))
-                if m == "has_value":
+                if m in ("has_value", "operator bool"):
                     return b, "(opt_has_value %s)" % t, "bool"
                 x = self.fresh("k")
                 return b + ["do %s <- opt_value %s;" % (x, t)], "(Some %s)" % x, "mit"
@@ -272,6 +311,14 @@ class Ext(cpp2coq.Tr):
                 x = self.fresh("o")
                 return bo + b + ["do %s <- mit_engage %s;" % (x, t)] + self.set_elem_field(to, lhs["n"], x, st)
             raise Unsupported("assignment of %s to %s" % (kd, lhs["n"]))
+        if c["k"] == "mcall" and c["n"] == "reset" and len(c["a"]) == 1 and c["a"][0]["k"] == "member" \
+                and c["a"][0]["n"] in self.ef_by_cpp and self.ef_by_cpp[c["a"][0]["n"]][1] == "optmit":
+            # o.reset() is o = std::nullopt
+            lhs = c["a"][0]
+            bo, to, ko = self.E(lhs["a"][0], st, env)
+            if ko != "eref":
+                raise Unsupported("reset() of a member of %s" % ko)
+            return bo + self.set_elem_field(to, lhs["n"], "None", st)
         if c["k"] == "mcall" and c["a"] and c["a"][0]["k"] == "this":
             # f(std::begin(r), std::end(r));  /  f(r);  as a STATEMENT, r a range parameter of this method that is to be
             # filled and f a void member function that fills the range it is handed (its translation returns the filled
@@ -302,6 +349,11 @@ class Ext(cpp2coq.Tr):
         return None
 
     def S(self, stmts, st, env, K):
+        if stmts and stmts[0]["k"] == "if" and len(stmts[0]["a"]) >= 3 and stmts[0]["a"][0]["k"] == "decls":
+            # if (init; cond) A else B  is  { init; if (cond) A else B }
+            f = stmts[0]
+            blk = dict(k="block", t="", n=None, a=[f["a"][0], dict(f, a=f["a"][1:])])
+            return self.S([blk] + stmts[1:], st, env, K)
         if stmts and stmts[0]["k"] == "for" and len(stmts[0]["a"]) == 5 and stmts[0]["a"][0]["k"] == "?None":
             # for (; begin != end; ++begin) { body }  is  while (begin != end) { body; ++begin; }  (no continue in the body:
             # the translator has no rule for `continue` at all)
@@ -317,6 +369,19 @@ class Ext(cpp2coq.Tr):
         if stmts and stmts[0]["k"] == "decls" and any(v["k"] == "sbind" for v in stmts[0]["a"]):
             return self.decomposition(stmts[0], stmts[1:], [st[0]], dict(env), K)
         return super().S(stmts, st, env, K)
+
+    def for_each_over(self, first, last, param, body, visible, env):
+        """std::for_each(begin, end, f), (begin, end) the iterator pair of this overload: the loop
+        while (begin != end) { <body of f, its parameter bound to *begin>; ++begin; }  (for_each works on copies of the two
+        iterators; that begin and end cannot be used after the loop is the stricter reading)"""
+        cond = dict(k="op", t="bool", n="operator!=", a=[first, last])
+        pc = self.pair_cond(cond, env)
+        if pc is not None:
+            if pc[2] == "fillrange" and not param[1].strip().endswith("&"):
+                raise Unsupported("std::for_each over the range to fill with a lambda that takes its item by value")
+            inc = dict(k="op", t="", n="operator++", a=[first])
+            return dict(k="while", t="", n=None, a=[cond, dict(k="block", t="", n=None, a=list(body["a"]) + [inc])], item=param[0], visible=visible)
+        return super().for_each_over(first, last, param, body, visible, env)
 
     def decomposition(self, c, rest, st, env, K):
         if len(c["a"]) != 1:
@@ -357,18 +422,20 @@ class Ext(cpp2coq.Tr):
         if bn in wr or en in wr:
             raise Unsupported("input-iterator loop that writes %s / %s other than by the final ++%s" % (bn, en, bn))
         tr = env[bn][0]
-        names = sorted(n for n in wr if n in env)
+        names = sorted(n for n in wr if n in env and self.visible(n, c))
         fill = kr == "fillrange"
         if fill:
             env["__fill"] = ("[]", "outvec")
             names = names + ["__fill"]
-        benv, bst = dict(env), [self.fresh("s")]
+        benv, bst = {n: v for n, v in env.items() if self.visible(n, c)}, [self.fresh("s")]
         for n in names:
             benv[n] = (self.fresh("v_" + n.strip("_") + "_"), env[n][1])
         acc_pat = self.tuple_of(bst, benv, names)
         x = self.fresh("item")
         benv[bn] = (x, kr + ":cursor")      # only *begin is meaningful inside the body
-        benv.pop(en)
+        benv.pop(en, None)
+        if c.get("item"):
+            benv[c["item"]] = (x, ITEM[kr])      # the loop of std::for_each(begin, end, f): the parameter of f is *begin
         self.fill_alias = None
 
         def done(st_, env_):
